@@ -88,3 +88,34 @@ func droppedErrors(p *Prog) []droppedErr {
 	})
 	return out
 }
+
+// ruleScannerErr: a bufio.Scanner stops silently at the first token longer than its buffer
+// (64 KB by default) or at a read error; only Err() tells.  A Scan loop whose scanner is never
+// asked for Err() treats a truncated input as complete.
+func ruleScannerErr(p *Prog, r *Report, rule string, pkgs map[string]bool) {
+	r.rule(rule, "Truncated input is not taken for complete: every function that calls (*bufio.Scanner).Scan also calls Err on the same scanner and uses the result (bufio.Scanner ends silently at a line longer than 64 KB or at a read error). The tree has no Scanner today; the rule keeps a line-by-line rewrite of a whole-file read from dropping the rest of the file unnoticed.")
+	n := 0
+	for _, fn := range allModFuncs(p) {
+		if pkgs != nil && !pkgs[pkgOfFunc(fn)] {
+			continue
+		}
+		scans := map[ssa.Value]ssa.Instruction{}
+		errs := map[ssa.Value]bool{}
+		for _, cs := range callsOf(fn) {
+			switch cs.calleeName() {
+			case "(*bufio.Scanner).Scan":
+				scans[cs.In.Common().Args[0]] = cs.In
+			case "(*bufio.Scanner).Err":
+				if v := cs.In.Value(); v != nil && v.Referrers() != nil && len(*v.Referrers()) > 0 {
+					errs[cs.In.Common().Args[0]] = true
+				}
+			}
+		}
+		for sc, in := range scans {
+			n++
+			r.add(rule, "scanner-err|"+fnDisplay(fn), p.ipos(in), "the scanner read in "+fnDisplay(fn)+" is asked for its error", errs[sc],
+				"the Scan loop ends silently at an over-long line or a read error; the rest of the input is never looked at")
+		}
+	}
+	r.note("%s: %d Scan loops examined", rule, n)
+}
